@@ -57,7 +57,13 @@ def gen(seed: int, tier: str, idx=None):
     cfg["aspects"] = ["grid", "names", "merges", "look"]
     g.ms.aspects = set(cfg["aspects"])
     rows, cols = rng0.randint(2, 9), rng0.randint(2, 7)
+    if rng0.random() < 0.2:
+        # tables that end exactly at, just before or just after a 256-row tile boundary, with data in their last rows
+        rows, cols = rng0.choice([255, 256, 257, 512]), rng0.randint(1, 2)
     g.emit({"op": "new_doc", "rows": rows, "cols": cols, "hr": rng0.choice([0, 1, 1]), "hc": rng0.choice([0, 1])})
+    if rows >= 255:
+        for r in (rows - 1, rows - 2, rows - 256 if rows > 256 else 0, 255 if rows > 255 else rows - 3):
+            g.emit({"op": "write", "d": 0, "s": 0, "t": 0, "r": max(0, r), "c": 0, "v": V.enc(g.value())})
     for _ in range(rng0.randint(3, 18)):
         m = g.ms.docs[0].model
         s = rng.randrange(len(m.sheets))
@@ -95,6 +101,14 @@ def gen(seed: int, tier: str, idx=None):
             g.emit({"op": "set_format" if k == "format" else "custom_format", "d": 0, "s": s, "t": t, "r": rr, "c": cc, "k": rng.randrange(1000), "name": None})
         else:
             g.emit({"op": "add_col", "d": 0, "s": s, "t": t, "n": rng.randint(1, 2)})
+    if rng0.random() < 0.15:
+        # a merged range spanning every column of two or three rows (its lower rows hold placeholders only), data below it
+        tm = g.ms.docs[0].model.sheets[0].tables[0]
+        if tm.nrows >= 4 and not tm.merges and not tm.hedge and not tm.vedge and not tm.styles:
+            r0 = rng.randrange(0, tm.nrows - 3)
+            g.emit({"op": "merge", "d": 0, "s": 0, "t": 0, "rects": [[r0, 0, r0 + rng.randint(1, 2), tm.ncols - 1]]})
+            for rr in range(r0 + 3, tm.nrows):
+                g.emit({"op": "write", "d": 0, "s": 0, "t": 0, "r": rr, "c": rng.randrange(tm.ncols), "v": V.enc(g.value())})
     slot = rng.choice(ALL_SLOTS)
     g.emit({"op": "save", "d": 0, "slot": slot})
     g.emit({"op": "resave_cycle", "slot": slot, **common})
